@@ -15,6 +15,7 @@ from __future__ import annotations
 import itertools
 import multiprocessing as mp
 import os
+import re
 import subprocess
 import tempfile
 import time
@@ -590,6 +591,21 @@ def _model_text(s):
         return None
 
 
+_JOB_DEADLINE = [float("inf")]
+
+
+def _out_of_time():
+    """budget checks between solver stages (each stage has its own z3 timeout; this bounds their SUM per job and per
+    proof stage, so that a broken tree costs minutes, not hours).  Expiry yields `unknown`, never a verdict."""
+    now = time.time()
+    return now > _JOB_DEADLINE[0] or now > _DEADLINE[0]
+
+
+def _gave_up(t0, cand=None):
+    return dict(status="unknown", backend="z3", seconds=time.time() - t0, model=cand,
+                detail=f"wall-clock budget of the job / proof stage used up; candidate-model={'yes' if cand else 'no'}")
+
+
 def prove_part(hyps, g, t_ms, name, goal_side=()):
     """prove  hyps ==> g  (g without top-level conjunction/forall): incremental
     instantiation rounds on one solver, then the full quantified query, then cvc5"""
@@ -655,9 +671,13 @@ def prove_part(hyps, g, t_ms, name, goal_side=()):
                 break
     except Exception:
         pass
+    if _out_of_time():
+        return _gave_up(t0, cand)
     ins = Instantiator(ground, quants, neg)
     all_inst = []
     for rnd in range(7):
+        if _out_of_time():
+            return _gave_up(t0, cand)
         new = ins.round()
         if new:
             all_inst.extend(new)
@@ -676,6 +696,8 @@ def prove_part(hyps, g, t_ms, name, goal_side=()):
     # model-based refinement: validate candidate models against the bounded quantifiers, add the
     # violated instances, repeat.  A model that satisfies every quantified hypothesis over its whole
     # (concrete, bounded) range is a genuine counter-model.
+    if _out_of_time():
+        return _gave_up(t0, cand)
     try:
         st_, mtxt, nr = mbqi_lite(s, ground, quants, neg, min(0.75 * t_ms / 1000.0, 60.0))
     except Exception as e:   # never let the refinement decide by crashing
@@ -688,6 +710,8 @@ def prove_part(hyps, g, t_ms, name, goal_side=()):
                     detail=f"model validated against every bounded quantified hypothesis; rounds={nr}")
     if mtxt:
         cand = mtxt
+    if _out_of_time():
+        return _gave_up(t0, cand)
     # full query: every quantified hypothesis present
     full = z3.Solver()
     for h in hyps:
@@ -702,6 +726,8 @@ def prove_part(hyps, g, t_ms, name, goal_side=()):
     if r == z3.sat:
         return dict(status="refuted", backend="z3/full", seconds=time.time() - t0, model=_model_text(full), detail="")
     why = full.reason_unknown()
+    if _out_of_time():
+        return _gave_up(t0, cand)
     smt_b = full.to_smt2()
     r3, dt3, _, why3 = _run_cvc5(smt_b, 0.5 * t_ms, "String" in smt_b)
     if r3 == "unsat":
@@ -945,9 +971,76 @@ _OBLS = []
 _TIMEOUT = [30000]
 
 
+class _Watchdog:
+    """hard wall-clock limit per job: z3's own timeout is not honoured inside some nonlinear / quantifier
+    procedures, so after `limit` seconds the context is interrupted (and again every 2 s, so that the later stages
+    of the same job end at once); the job then reports `unknown` - never a verdict"""
+
+    def __init__(self, limit):
+        import threading
+        self.limit, self.fired, self.done = limit, False, False
+        self.t = threading.Thread(target=self._run, daemon=True)
+        self.t.start()
+
+    def _run(self):
+        import time as _t
+        t0 = _t.time()
+        while not self.done:
+            _t.sleep(0.5)
+            if _t.time() - t0 > self.limit and not self.done:
+                self.fired = True
+                try:
+                    z3.main_ctx().interrupt()
+                except Exception:
+                    pass
+                for _ in range(3):
+                    if self.done:
+                        break
+                    _t.sleep(0.5)
+
+    def stop(self):
+        self.done = True
+
+
+class _NoWatchdog:
+    """interrupting the shared z3 context from a timer proved unreliable (a late interrupt cancels the NEXT job of
+    the worker); the workers rely on z3's own timeouts, on skipping the remaining jobs of a clause that already
+    failed, and on the wall-clock budget of the proof stage"""
+    fired = False
+
+    def stop(self):
+        pass
+
+
+_FLAGDIR = [None]
+_DEADLINE = [float("inf")]
+
+
+def _flag_path(name):
+    import hashlib
+    key = name      # per configuration: a clause recorded as a known finding must be decided in each of its configurations
+    return os.path.join(_FLAGDIR[0], hashlib.md5(key.encode()).hexdigest()) if _FLAGDIR[0] else None
+
+
 def _work(i):
     o = _OBLS[i]
     out = []
+    hard = max(3.0 * _TIMEOUT[0] / 1000.0, 120.0) * (3.0 if _LONG[0] else 1.0)
+    fp = _flag_path(o.name)
+    if time.time() > _DEADLINE[0] and not o.expect_sat:
+        return [dict(name=o.name, status="unknown", backend="-", seconds=0.0, model=None,
+                     detail="skipped: the proof stage's wall-clock budget is used up", path=o.path_id, lineno=o.lineno,
+                     note=o.note, smt_b="")]
+    hard = max(10.0, min(hard, _DEADLINE[0] - time.time()))
+    if fp and not o.expect_sat and os.path.exists(fp):
+        # the same clause has already failed (refuted / undecided) on another path or configuration: its verdict cannot
+        # become "proved" any more, so the remaining jobs of that clause are not run (keeps a broken tree from costing hours)
+        return [dict(name=o.name, status="unknown", backend="-", seconds=0.0, model=None,
+                     detail="skipped: another job of this clause already failed", path=o.path_id, lineno=o.lineno,
+                     note=o.note, smt_b="")]
+    wd = _NoWatchdog()
+    # a job (all conjuncts of one obligation on one path) gets at most 4 x the per-query timeout (>= 120 s; x3 thorough)
+    _JOB_DEADLINE[0] = time.time() + max(4.0 * _TIMEOUT[0] / 1000.0, 120.0) * (3.0 if _LONG[0] else 1.0)
     try:
         if o.expect_sat:
             r = cover_part(o.hyps, o.goal, _TIMEOUT[0])
@@ -956,14 +1049,31 @@ def _work(i):
         parts = strip_goal(o.goal)
         for k, (extra, g) in enumerate(parts):
             nm = o.name if len(parts) == 1 else f"{o.name}/{k}"
-            r = prove_part(list(o.hyps) + list(extra), g, _TIMEOUT[0], nm, goal_side=list(extra))
+            try:
+                r = prove_part(list(o.hyps) + list(extra), g, _TIMEOUT[0], nm, goal_side=list(extra))
+            except Exception as e:
+                if not wd.fired:
+                    raise
+                r = dict(status="unknown", backend="z3", seconds=hard, model=None,
+                         detail=f"hard wall-clock limit of {hard:.0f} s reached ({type(e).__name__})")
+            if wd.fired and r.get("status") not in ("proved", "refuted"):
+                r["status"] = "unknown"
+                r["detail"] = (r.get("detail") or "") + f" [hard wall-clock limit of {hard:.0f} s]"
             r.update(name=nm, path=o.path_id, lineno=o.lineno, note=o.note, smt_b="")
             out.append(r)
+
     except Exception as e:
         import traceback
-        out.append(dict(name=o.name, status="error", backend="-", seconds=0.0, model=None,
+        out.append(dict(name=o.name, status=("unknown" if wd.fired else "error"), backend="-", seconds=0.0, model=None,
                         detail=f"{type(e).__name__}: {e} {traceback.format_exc(limit=3)}", path=o.path_id,
                         lineno=o.lineno, note=o.note, smt_b=""))
+    finally:
+        wd.stop()
+        if fp and any(r.get("status") in ("refuted", "unknown", "error") for r in out):
+            try:
+                open(fp, "w").close()
+            except OSError:
+                pass
     return out
 
 
@@ -981,6 +1091,11 @@ def solve_all(obls, timeout_ms=30000, workers=8, progress=None, long=False):
             order.append(o)
     _OBLS = order
     _TIMEOUT[0] = timeout_ms
+    import tempfile
+    import shutil
+    _FLAGDIR[0] = tempfile.mkdtemp(prefix="pyvc_flags_")
+    # wall-clock budget of the whole proof stage (the unchanged tree needs a few minutes; a broken tree must not cost hours)
+    _DEADLINE[0] = time.time() + float(os.environ.get("VERIF_PROOF_BUDGET_S", "3600" if long else "900"))
     if workers <= 1 or len(order) <= 1:
         outs = [_work(i) for i in range(len(order))]
     else:
@@ -992,6 +1107,8 @@ def solve_all(obls, timeout_ms=30000, workers=8, progress=None, long=False):
         outs = [None] * len(order)
         for i, r in zip(idx, outs_sorted):
             outs[i] = r
+    shutil.rmtree(_FLAGDIR[0], ignore_errors=True)
+    _FLAGDIR[0] = None
     final = []
     for o in obls:
         key = (tuple(h.get_id() for h in o.hyps), o.goal.get_id(), o.expect_sat)
